@@ -1357,3 +1357,43 @@ def _unbox_e(t):
     while t.k == 'adt' and t.name.startswith('std::boxed::Box') and t.args:
         t = strip_refs(t.args[0])
     return t.k == 'adt' and t.name == E
+
+
+# ---------------------------------------------------------------------------------------------------------------------
+# CONTINUATION-LEVELS (C08): after the tuple / lambda look-ahead has consumed `( lowerId`, the parser continues an
+# expression "from the base": it applies the continuation of every binary-operator level (`.. _with_start`) in turn. That
+# sequence is a second copy of the precedence chain; a level missing from it makes `(a :: b) * c` - text the printer itself
+# produces - unparsable. Cross-check of siblings: a function that applies several operator-level continuations to an
+# already parsed expression applies all of them.
+
+def run_continuation_levels(prog, tier, repo):
+    res = RuleResult('CONTINUATION-LEVELS', 'C08: every place that continues an already parsed expression through the operator '
+                     'levels applies the continuation of every level (the look-ahead path agrees with the normal chain)')
+    pl = parser_levels(prog, res)
+    if pl is None:
+        res.cannot_decide('source BinaryOperator / Binary types')
+        return [res]
+    parser, levels, nxt, binop = pl
+    # continuation form of a level: takes an already parsed expression
+    conts = {i for i in levels if any(_unbox_e(parser[i].locals[k]) for k in range(1, parser[i].nargs + 1))}
+    if len(conts) < 3:
+        res.cannot_decide(f'operator-level continuations taking a parsed expression (found {len(conts)})')
+        return [res]
+    n = 0
+    for b in sorted(parser.values(), key=lambda x: x.name):
+        if b.id in levels:
+            continue
+        called = {r for r in body_refs(b) if r in conts}
+        if len(called) < 2:
+            continue
+        n += 1
+        key = f'from-base:{b.name}'
+        missing = sorted(parser[i].name.split('::')[-1] for i in conts - called)
+        if missing:
+            res.violation(key, b.loc(), f'{b.name} continues a parsed expression through {len(called)} of the {len(conts)} operator levels '
+                          f'but not through {missing}: an operator of that level after a parenthesised identifier (`(a :: b) * c`) is a '
+                          f'syntax error, although the formatter prints exactly that text')
+        else:
+            res.ok(key, b.loc(), f'applies all {len(conts)} operator-level continuations')
+    res.floor('functions continuing an expression through the operator levels', n, 1)
+    return [res]
